@@ -11,9 +11,9 @@ it lies inside the record:
 
  * `append_rows`: `tuple(record)` for every record, then `np.array(list_of_tuples, dtype=<compound of the frame>)`;
  * `write_rows`: `tuple(rows[0])` / `tuple(row)` for every row, then the same conversion inside `_write_data`;
- * `create_data_frame(col_dict= | col_names=, data=<structured array>)`: `np.ascontiguousarray(data, dtype=col_dtype)`,
-   NumPy's structured-to-structured cast, which assigns field `j` to field `j` and refuses another number of fields
-   with `TypeError`;
+ * `create_data_frame(col_dict= | col_names=, data=<structured array>)`: the records are taken apart like every other
+   row (`list(map(tuple, data))`, fix ac50c5b: NumPy's structured-to-structured cast would store a value the column
+   cannot hold as another value), then `np.ascontiguousarray(list_of_tuples, dtype=col_dtype)`;
  * `create_data_frame(col_names=, data=<structured array>)`: the column types are the types of the first record's
    cells, i.e. the field types;
  * `create_data_frame(data=<structured array>)`: names and types are `data[0].dtype.fields` in its own order, which is
@@ -50,17 +50,9 @@ def writeRowsRec (f : Frame) (r : RecArray) (idx : List Int) : Frame × Option E
 /-- `write_rows(<one np.void record>, [i])`: `rows[0]` is the record's first cell (a scalar: the flat form) -/
 def writeRowVoid (f : Frame) (record : Row) (idx : List Int) : Frame × Option Err := writeRowFlat f record idx
 
-/-- shared tail of creation with structured data: dtype of the columns, then
-    `np.ascontiguousarray(data, dtype=col_dtype)` (skipped for zero records), then as `createWith` -/
+/-- shared tail of creation with structured data: the records taken apart into tuples, then as `createWith` -/
 def createWithRec (cols : List (String × ColType)) (r : RecArray) : Except Err Frame :=
-  match r.rows with
-  | [] => createWith cols (some [])
-  | _ =>
-    match mkDtype cols with
-    | .error e => .error e
-    | .ok c =>
-      if r.fields.length ≠ c.length then .error .typeError     -- "Cannot cast array data from dtype(...) to dtype(...)"
-      else createWith cols (some r.tuples)
+  createWith cols (some r.tuples)
 
 /-- variant `col_dict=, data=<structured array>` -/
 def createDictRec (cols : List (String × ColType)) (r : RecArray) : Except Err Frame := createWithRec cols r
